@@ -607,15 +607,16 @@ func (options *Options) Unmarshal(data []byte, optionDefs map[OptionID]OptionDef
 //
 // Returns modified options, number of used buf bytes and error if occurs.
 func (options Options) ResetOptionsTo(buf []byte, in Options) (Options, int, error) {
-	opts := options[:0]
 	used := 0
-	for idx, o := range in {
-		if len(buf) < len(o.Value) {
-			for i := idx; i < len(in); i++ {
-				used += len(in[i].Value)
-			}
-			return options, used, ErrTooSmall
-		}
+	for _, o := range in {
+		used += len(o.Value)
+	}
+	if len(buf) < used {
+		return options, used, ErrTooSmall
+	}
+	opts := options[:0]
+	used = 0
+	for _, o := range in {
 		copy(buf, o.Value)
 		used += len(o.Value)
 		opts = opts.Add(Option{
